@@ -343,14 +343,17 @@ prop(
     "C17",
     level="other",
     design_ref="DESIGN.md section 3, C17",
-    groups=[(["./plugin/action/mask"], r"^\(\*Mask\)\.(maskValue|maskSection)$"), (["./cfg"], r"^VerifyGroupNumbers$"), (["./cfg/matchrule"], r"^\(\*Rule\)\.(Match|match)$")],
+    groups=[(["./plugin/action/mask"], r"^\(\*Mask\)\.(maskValue|maskSection)$"), (["./cfg"], r"^VerifyGroupNumbers$"), (["./cfg/matchrule"], r"^\(\*Rule\)\.(Match|match)$"),
+            (["./plugin/action/mask", "./pipeline"], r"^(addFieldsToTree|\(\*Plugin\)\.traverseTree)$")],
     canaries=[("./plugin/action/mask", "replay/C17/zz_replay_c17_test.go", "TestVerifReplayC17Tail")],
     known_canaries=[("./plugin/action/mask", "replay/C17/zz_replay_c17_test.go", "TestVerifReplayC17Order")],
     claim=(
         "maskValue under contract against a regexp model that promises only what the library guarantees (every submatch pair is (-1,-1) or 0<=s<=e<=len, nothing about the order of groups): "
         "all index computations on the match vector are in range for validated group numbers, the tail is copied from the end of the last masked section, and the tiling condition "
         "(each copied piece value[prevFinish:curStart] starts where the previous masked section ended) is the slice-bound obligation - it FAILS for nested / out-of-order groups: KNOWN FINDING (open, replayed). "
-        "maskSection: cut appends nothing, replace appends exactly the word, mask appends at most max_count and at most one asterisk per byte of the section."
+        "maskSection: cut appends nothing, replace appends exactly the word, mask appends exactly min(rune count of the section, max_count) asterisks (the rune count being that of src[begin:end], taken once). "
+        "VerifyGroupNumbers returns only group numbers within 0..NumSubexp (what maskValue requires). Match rules: the configured inversion is applied to the outcome of the comparison for every value, short ones included. "
+        "Field lists: addFieldsToTree runs the leaf callback exactly once per configured path whether or not the nodes existed; traverseTree hands to array element i the node listed for index i or the empty node, decided per element."
     ),
     undecided=[
         "field selection (traverseTree over insane-json trees, process / ignore field lists), applied mark and metrics: third-party tree, not under contract",
